@@ -31,11 +31,17 @@ def run(C, R):
         R.floor('C14.W wrapper-paths[%s]' % cfg, wrapper_discipline(C, R, cfg, ['sync::manual_reset_event::EventState'], 'C14.W'), 2)
         F.adt(STATE)
         # R1
-        setf = F.one_fn(impl_adt=STATE, name='set')
-        paths = E.run(setf['path'])
-        R.add_paths(setf['path'], len(paths))
+        from rl import transitions_named, unknown_transitions
+        CG = C.cg(cfg)
+        unk = unknown_transitions(F, CG, STATE, ('set', 'reset', 'try_wait', 'remove_waiter', 'poll', 'drop', 'is_set'))
+        if unk:
+            raise CheckerError('cannot judge: %s act(s) as a transition of EventState (mutates it directly / composes '
+                               'state calls) and C14 has no rule for an operation of that name' % ', '.join(unk))
+        sets = transitions_named(F, CG, STATE, 'set')
+        if not sets:
+            raise CheckerError('anchor=EventState::set (no transition of that name)')
         nnew = 0
-        for path in paths:
+        for setf, path in [(f_, p_) for f_ in sets for p_ in E.run(f_['path'])]:
             if path.exit != 'return':
                 R.fail('C14.R1', [setf['path'], 'panics'], 'set() can panic', None)
                 continue
@@ -55,7 +61,8 @@ def run(C, R):
                     R.ok('C14.R1', '%s|already set' % setf['path'])
                 continue
             nnew += 1
-            wrote = any(loc_endswith(e['loc'], 'is_set') and e['val'] == ('const', 1) for e in ws)
+            flagw = [e for e in ws if loc_endswith(e['loc'], 'is_set')]
+            wrote = bool(flagw) and flagw[-1]['val'] == ('const', 1)     # the LAST word on the flag is `true`
             good = wrote and len(drains) == 1
             if good:
                 tok = drains[0]['node']
